@@ -10,8 +10,9 @@ Local Open Scope Z_scope.
 (* op.VerifyJWTAssertion accepts => the signature verifies, under an accepted
    algorithm, with the key storage holds for (iss, kid); the provider's issuer is in
    aud; unexpired; issued neither in the future nor longer ago than the max age;
-   sub = iss unless a custom subject check is configured.  Returned claims = the
-   token's claims. *)
+   sub = iss unless a custom subject check is configured; a verifier with NO subject
+   check (nil CheckSubject: op.SubjectCheck(nil) or a struct literal) accepts nothing at
+   all (the call panics, C14_nil_subject_check).  Returned claims = the token's claims. *)
 Theorem C14_assertion_sound :
   forall (verify : keyid -> sigdesc -> bool) v t now tok c,
   verify_assertion verify v t now tok = Ok c ->
@@ -22,7 +23,8 @@ Theorem C14_assertion_sound :
     /\ c_exp c <> 0 /\ now + v_offset v < c_exp c * second
     /\ c_iat c <> 0 /\ c_iat c * second <= round_s (now + v_offset v)
     /\ (v_max_age v <> 0 -> round_s (now - v_max_age v) <= c_iat c * second)
-    /\ (v_sub v = SubIsIssuer -> c_sub c = c_iss c).
+    /\ (v_sub v = SubIsIssuer -> c_sub c = c_iss c)
+    /\ v_sub v <> SubNil.
 Proof. exact assertion_sound. Qed.
 Print Assumptions C14_assertion_sound.
 
@@ -141,6 +143,7 @@ Print Assumptions C14_request_object_keeps_client.
    the registered key really signed. *)
 Theorem C14_interop :
   forall (verify : keyid -> sigdesc -> bool) v t now tb client kid key alg auds e,
+  (v_sub v = SubIsIssuer \/ v_sub v = SubAny) ->
   (forall d, sd_intact d = true -> verify (sd_signer d) d = true) ->
   lookup_key t client kid = Some key ->
   In alg accepted_algs -> In (v_issuer v) auds ->
@@ -159,6 +162,7 @@ Print Assumptions C14_interop.
    and the asked lifetime has not run out. *)
 Theorem C14_interop_fresh :
   forall (verify : keyid -> sigdesc -> bool) v t now tb client kid key alg auds life,
+  (v_sub v = SubIsIssuer \/ v_sub v = SubAny) ->
   (forall d, sd_intact d = true -> verify (sd_signer d) d = true) ->
   lookup_key t client kid = Some key ->
   In alg accepted_algs -> In (v_issuer v) auds ->
@@ -197,6 +201,15 @@ Theorem C14_helper_claims_built_ok :
   helper_built_ok v h (mkSig true alg kid key true) (helper_claims client auds life tb) = true.
 Proof. exact helper_claims_built_ok. Qed.
 Print Assumptions C14_helper_claims_built_ok.
+
+(* a verifier that does not return is one without a subject check, however it was built;
+   and the model of every entry point then answers "panicked", never an identity *)
+Theorem C14_nil_subject_check :
+  forall (verify : keyid -> sigdesc -> bool) v t now tok,
+  (verify_assertion verify v t now tok = Err EPanicked -> v_sub v = SubNil)
+  /\ (v_sub v = SubNil -> forall c, verify_assertion verify v t now tok <> Ok c).
+Proof. exact nil_subject_check. Qed.
+Print Assumptions C14_nil_subject_check.
 
 (* the property predicate the check evaluates on the implementation's answers holds
    for the model on every input (clock bracket ordered; storage contract; what a helper
